@@ -1,7 +1,7 @@
 SPECIFICATION Spec
 CONSTANTS
   Strict = TRUE
-  MSigs = {"ok", "none", "bad", "chunkbad", "chunknone"}
+  MSigs = {"ok", "exempt", "none", "bad", "forged", "chunkbad", "chunknone"}
   MToks = {"none", "ok", "expired", "bearer_ok", "bearer_expired"}
 INVARIANTS TypeOK C29_NoEffectForFailingRequest C29_ChecksPrecedeEffects C29_HeaderEACLBeforeData C29_ErrorStatusForFailingRequest C45_MaintenanceRefusal
 CHECK_DEADLOCK FALSE
